@@ -430,6 +430,8 @@ static void worker_loop(Property &P, int rfd, int wfd, bool thorough) {
     uint64_t seed = strtoull(line, nullptr, 10);
     J plan = P.gen(seed, thorough);
     RunResult r = P.run(plan);
+    // every run op after the first starts with a repeated step (run boundary): counted for all properties
+    { long runs = 0; if (plan.has("ops")) for (auto const &op : plan.at("ops").a) if (op.at("op").as_str() == "run") runs++; if (runs > 1) r.counters["fault.run_boundary"] += runs - 1; }
     std::string out = "R " + std::to_string(seed) + " " + r.to_json().str() + "\n";
     size_t off = 0;
     while (off < out.size()) { ssize_t k = ::write(wfd, out.data() + off, out.size() - off); if (k <= 0) _exit(3); off += (size_t)k; }
